@@ -720,7 +720,16 @@ fn obs_c08(dir: &Path, src: &str, stack: bool, dest: &str, lim: Option<u64>) -> 
     let pre: Option<Vec<u8>> = kind.strip_prefix("pre:").map(|h| unhex(h).unwrap_or_default());
     // (argument given to lace, path through which the destination is read afterwards)
     let (dest_arg, read_path): (std::ffi::OsString, PathBuf) = if kind == "devfull" {
-        ("/dev/full".into(), PathBuf::from("/dev/full"))
+        // a private device node with /dev/full's numbers (1, 7), so that a change which renames a
+        // file over its destination cannot clobber the machine's own /dev/full; the real one is
+        // used only where no node can be made (not root)
+        extern "C" {
+            fn mknod(path: *const std::os::raw::c_char, mode: u32, dev: u64) -> i32;
+        }
+        let node = work.join("devfull");
+        let c = std::ffi::CString::new(node.to_str().unwrap()).unwrap();
+        let made = unsafe { mknod(c.as_ptr(), 0o020000 | 0o666, (1 << 8) | 7) } == 0;
+        if made { ("devfull".into(), node) } else { ("/dev/full".into(), PathBuf::from("/dev/full")) }
     } else if kind == "nodir" {
         ("no-such-dir/out.lc3".into(), work.join("no-such-dir/out.lc3"))
     } else {
@@ -760,7 +769,12 @@ fn obs_c08(dir: &Path, src: &str, stack: bool, dest: &str, lim: Option<u64>) -> 
     };
     let extra = count(&work, &expected) + count(&work.join("sub"), &["link.lc3".into(), "real.lc3".into()]);
     let after = if kind == "devfull" {
-        "devfull".to_string()
+        use std::os::unix::fs::FileTypeExt;
+        match std::fs::symlink_metadata(&read_path) {
+            Ok(m) if m.file_type().is_char_device() => "devfull".to_string(),
+            Ok(_) => "device-replaced-by-a-file".to_string(),
+            Err(_) => "device-removed".to_string(),
+        }
     } else if kind == "nodir" {
         if work.join("no-such-dir").exists() { "created".into() } else { "nodir".to_string() }
     } else {
